@@ -127,7 +127,7 @@ class Case:
         if self.rawskip:
             L.append("rawskip")
         if self.reenter is not None:
-            L.append("reenter %d" % self.reenter)
+            L.append("reenter %s" % str(self.reenter).replace(":", " "))
         if self.zstiter:
             L.append("zstiter")
         if self.relocate is not None:
@@ -207,7 +207,7 @@ def parse_cases(text):
         elif toks[0] == "rawskip":
             cur.rawskip = True
         elif toks[0] == "reenter":
-            cur.reenter = int(toks[1])
+            cur.reenter = int(toks[1]) if len(toks) == 2 else "%s:%s" % (toks[1], toks[2])
         elif toks[0] == "zstiter":
             cur.zstiter = True
         elif toks[0] == "relocate":
